@@ -19,10 +19,14 @@ ASSUMPTIONS = ['timestamps in (-2,-1) and other negative timestamps are unspecif
                'regex semantics are those of Python re.search (the model uses re itself; the application rules are under test)']
 
 PATTERNS = ['foo', 'bar', r'\.count$', '^carbon', '^a', 'z$', 'a|b', '[0-9]+', '.*', r'^servers\.', r'web\d+', '^$', 'x{2}', '(?i)CPU',
-            'é', r'\.', '^[^.]+$', 'prod|stage', r'^(?!ok)', 'cpu.*idle', 'tmp']
+            'é', r'\.', '^[^.]+$', 'prod|stage', r'^(?!ok)', 'cpu.*idle', 'tmp',
+            # groups, back-references, named groups, inline flags: each LINE is one regular expression of its own
+            r'^(\w+)\.\1\.', r'^(carbon|servers|stats)\.', r'(a|b)\.(c|d)', r'(\d)\1', r'(?P<h>web\d+)\.(?P=h)', r'(?P<h>x)y',
+            r'^(?:prod|stage)\.(api)\.\1', r'(?i)^WEB', r'(.)\1$']
 NOISE = ['# a comment', '', '   ', '#', '(', '[a', '*x', '(?P<n', '\\']
 NAMES = ['foo', 'foo.bar', 'a', 'z', 'carbon.agents.x', 'servers.web1.cpu.idle', 'servers.web22.mem', 'xx', 'CPU.load', 'cpu.load',
-         'ok.fine', 'prod.api.count', 'stage.api.hits', 'tmp', 'é.metric', 'nomatch', 'Q', '12', 'b', 'abc.def.count', 'bar.baz']
+         'ok.fine', 'prod.api.count', 'stage.api.hits', 'tmp', 'é.metric', 'nomatch', 'Q', '12', 'b', 'abc.def.count', 'bar.baz',
+         'web01.web01.load', 'host7.host7.cpu', 'a.c', 'b.d.x', 'n.11', 'web3.web3', 'web3.web4', 'prod.api.api', 'stage.api.apx', 'Web.x', 'zz']
 
 
 def configs(tier, seed):
